@@ -19,8 +19,8 @@
    call, which parse() maps to XPathParsingError at position 0).  C16_total_under covers both values. *)
 From Coq Require Import List NArith Bool.
 From Delb.Base Require Import PyStr.
-From Delb.XPath Require Import XBase Tok TokFacts Ast Parse ParseFacts.
-From Delb.Gen Require Import GenXPath.
+From Delb.XPath Require Import XBase Tok TokFacts TTree Ast Parse ParseFacts.
+From Delb.Gen Require Import GenXPath GenXPathFns.
 From Delb.XPath Require ParseEnc.   (* the encoder the check evaluates; required here so that it is built *)
 Import ListNotations.
 
@@ -32,6 +32,20 @@ Print Assumptions C16_alternation.
 Theorem C16_audit : audit = model_audit.
 Proof. exact audit_ok. Qed.
 Print Assumptions C16_audit.
+
+(* the loop helpers of parser.py are translated statement by statement from the source on every run
+   (Gen/GenXPathFns.v); the model's functions are those *)
+Theorem C16_helpers_as_translated :
+  (forall tokens pat, compare_tokens_with_pattern tokens pat = gen_compare_tokens_with_pattern tokens pat)
+  /\ (forall tokens pat, all_tokens_match tokens pat = gen_all_tokens_match tokens pat)
+  /\ (forall tokens pat, initial_tokens_match tokens pat = gen_initial_tokens_match tokens pat)
+  /\ (forall sep tokens, partition_tokens sep tokens = gen_partition_tokens sep tokens)
+  /\ (forall tokens, expand_axes tokens = gen_expand_axes tokens).
+Proof.
+  exact (conj compare_as_translated (conj all_tokens_match_as_translated (conj initial_tokens_match_as_translated
+        (conj partition_as_translated expand_as_translated)))).
+Qed.
+Print Assumptions C16_helpers_as_translated.
 
 (* ---- tokenizer ---- *)
 Theorem C16_tokens_concat : forall s l, lexemes s = POk l -> concat (map t_str l) = s.
